@@ -622,6 +622,77 @@ def p13(rep):
     rep.floor("restores of the reader's state in include.c", n, 1)
 
 
+def p14(rep):
+    """The column of a token is the tab-expanded column the scanner keeps in scLineChar while it steps through the line.
+    Stepping onto a character moves the column forward: by one for an ordinary character, to the last cell before the next tab
+    stop for a TAB -- which is 8 cells further when the TAB itself starts on a tab stop.  A formula that gives such a TAB no
+    width (`ROUND_UP(c+1, 8) - 1` is c when c+1 is already a multiple of 8) reports every later token of the line 8 columns
+    too far left, while the excerpt printed under the message expands the tab properly.  The TAB branch of scAdvance0 is
+    evaluated for every column 0..63 (rules/peval.py): the new column is larger than the old one and is the cell before a
+    tab stop."""
+    from .peval import peval
+    f = common.extract("scan.c", all_trees=True)
+    branch = None
+    for fn in f.funcs.values():
+        if "body" not in fn or branch is not None:
+            continue
+        for x in walk(fn["body"]):
+            if x["k"] == "IfStmt" and (x.get("mac") == "scAdvance0" or any((y.get("mac") == "scAdvance0") for y in walk(x["c"][0]))):
+                c = strip(x["c"][0])
+                if c is not None and c["k"] == "BinaryOperator" and c["op"] == "==" and const_value(c["c"][1]) == 9 and \
+                        any(y["k"] == "DeclRefExpr" and y["n"] == "scLine" for y in walk(c["c"][0])):
+                    branch = x
+                    break
+    if branch is None:
+        raise AnalysisBroken("scan.c: the TAB branch of scAdvance0 was not found")
+    tabstop = None
+    for y in walk(branch["c"][1]):
+        if (y.get("imac") or y.get("mac")) == "TABSTOP" and const_value(y) is not None:
+            tabstop = const_value(y)
+    if not tabstop:
+        raise AnalysisBroken("scan.c: TABSTOP could not be read")
+
+    def run(st, env):
+        if st is None:
+            return
+        k = st["k"]
+        if k == "CompoundStmt":
+            for c in st["c"]:
+                run(c, env)
+        elif k == "IfStmt":
+            v = peval(st["c"][0], env)
+            if v is None:
+                raise AnalysisBroken("scan.c: a condition in the TAB branch is not a function of the column")
+            run(st["c"][1] if v else (st["c"][2] if len(st["c"]) > 2 else None), env)
+        elif k in ("BinaryOperator", "CompoundAssignOperator") and st["op"] in ("=", "+=", "-=") and (strip(st["c"][0]) or {}).get("n") == "scLineChar":
+            v = peval(st["c"][1], env)
+            if v is None:
+                raise AnalysisBroken("scan.c: the new column in the TAB branch is not a function of the old one")
+            env["scLineChar"] = v if st["op"] == "=" else env["scLineChar"] + (v if st["op"] == "+=" else -v)
+        elif k == "UnaryOperator" and st["op"] in ("++", "post++") and (strip(st["c"][0]) or {}).get("n") == "scLineChar":
+            env["scLineChar"] += 1
+        elif k in ("ParenExpr", "NullStmt"):
+            if k == "ParenExpr":
+                run(st["c"][0], env)
+        else:
+            raise AnalysisBroken("scan.c: statement kind %s in the TAB branch" % k)
+    bad = []
+    for c in range(0, 8 * tabstop):
+        env = {"scLineChar": c}
+        run(branch["c"][1], env)
+        n = env["scLineChar"]
+        if not (n > c and (n + 1) % tabstop == 0 and n - c <= tabstop):
+            bad.append((c, n))
+    if not bad:
+        rep.ok("P14", "a-tab-has-a-width", sample={"columns evaluated": 8 * tabstop, "tab stop": tabstop})
+    else:
+        c, n = bad[0]
+        rep.violation("P14", "a-tab-has-a-width", "scan.c:%d (scAdvance0)" % branch["l"],
+                      "a TAB met at column %d leaves the column at %d (%d of %d columns evaluated are wrong): the tab has no width "
+                      "there, so every later token of the line is reported %d columns too far left, while the quoted source line "
+                      "expands the tab" % (c, n, len(bad), 8 * tabstop, tabstop))
+
+
 def p10(rep):
     """sposNew starts a new line-table segment -- which is what makes a message name the file it is in -- when the file name of
     the next line differs from the previous entry's (fnameEqual -> osFnameDirEqual for the directory parts).  osFnameDirEqual
@@ -704,5 +775,6 @@ def run(tier, only=None):
     p11(rep)
     p12(rep)
     p13(rep)
+    p14(rep)
     rep.analysed_count("translation units", 3)
     return rep
